@@ -916,6 +916,9 @@ LoadDocs ==
    \* two files that diverge below a non-splittable element (differently named XREF-TARGETs in one L-2); cf also brings a new package with a reference
    cd |-> DocOf("V50", <<PkgA(<<DescX("x")>>), DNamed("AR-PACKAGE", "b", <<>>)>>),
    cf |-> DocOf("V50", <<DNamed("AR-PACKAGE", "z", <<Els(<<ISigRef("q", <<"a", "s">>)>>)>>), PkgA(<<DescX("y")>>)>>),
+   \* the same siblings of different kinds in another order, one of them with more content in the second file
+   pi1 |-> DocOf("V50", <<PkgA(<<Els(<<Sys("s"), DNamed("I-SIGNAL", "i", <<>>)>>)>>)>>),
+   pi2 |-> DocOf("V50", <<PkgA(<<Els(<<DNamed("I-SIGNAL", "i", <<DL("DATA-TYPE-POLICY", EVal("LEGACY"))>>), Sys("s")>>)>>)>>),
    \* two new packages next to each other
    p2 |-> DocOf("V50", <<DNamed("AR-PACKAGE", "y", <<>>), DNamed("AR-PACKAGE", "z", <<>>)>>),
    \* mixed content: an inline element (to be merged with the XREF-TARGET that cd has in the same L-2)
